@@ -5,6 +5,8 @@ import cycle_common as Y
 
 def run(res, tier, seed):
     Y.base(res)
+    res.trusted_base += ['translator T10 (translate/t10_converged.py): GMGPolar::converged regenerated as gen_converged; K-converged compares the '
+                         'real (private) function with the extracted model on a grid of norms and tolerance set-ups']
     res.assumptions += [
         'PARTIAL: "the iteration contracts with mean factor < 1 for every configuration" is analytic multigrid convergence theory '
         'and is not a theorem; the check only SEARCHES for a non-converging configuration (sampled, proves nothing)',
@@ -12,8 +14,33 @@ def run(res, tier, seed):
         'reads only that iterate and the right-hand sides; no cycle writes a right-hand side',
         'the independent recomputation of the tested residual (fresh operators, fresh caches) is evaluated on the implementation',
     ]
+    tr = C.run_translators(['t10_converged'])
+    for n, ok, msg in tr:
+        res.obligation('translator:' + n, ok, msg[-300:])
+        if not ok:
+            res.fail('translator:' + n, msg)
     cr = C.coq_build('C01')
     res.add_coq(cr)
+    # K-converged: the private decision function on a grid of norms and tolerance set-ups against the model
+    okm, _ = C.build_model_driver()
+    okh, _ = C.build_harness(['h_solver'])
+    if okm and okh:
+        rc, implc, errc = C.run_harness('h_solver', args=['converged'])
+        rcm, modelc, errm = C.run_model('cycle', implc)
+        nc, disc, _ = C.compare_lines(implc, modelc, {})
+        res.coverage['stop_decisions_compared'] = nc
+        if rc != 0 or rcm != 0:
+            res.fail('K-converged-run', (errc + errm)[-400:])
+        if disc:
+            res.fail('K-converged', disc[:3])
+            d = next((x for x in disc if x.get('kind') == 'value'), None)
+            if d:
+                q = d['query'].split()
+                res.violation('converged:' + ' '.join(q[1:3]), {
+                    'what': 'GMGPolar::converged(residual_norm, relative_residual_norm) decides differently from the tolerance test: '
+                            'absolute tolerance, relative tolerance ("-" = disabled), ||r||, ||r||/||r_0|| as in the query',
+                    'query': d['query'], 'impl': d['impl'], 'model': d['model'], 'values': [float.fromhex(x) if x != '-' else None for x in q[1:5]],
+                    'replay_cmd': 'build/harness/h_solver converged'})
     out = Y.run_trace(res, tier, seed)
     if out:
         impl, dis = out
